@@ -80,6 +80,60 @@ func (it *Interp) toCoins(v Value) *CoinsV {
 	panic(unsupported(fmt.Sprintf("expected sdk.Coins, got %T at %s", v, it.where())))
 }
 
+// rawCoinList returns denominations and amounts of a literal coin list ([]Coin built by the program, possibly malformed).
+func (it *Interp) rawCoinList(v Value) ([]string, []Value, bool) {
+	s, ok := v.(*SliceV)
+	if !ok {
+		return nil, nil, false
+	}
+	if s.Len == 0 {
+		return nil, nil, true
+	}
+	var dens []string
+	var amts []Value
+	for _, e := range s.Arr.V.(*ArrayV).Elems[s.Off : s.Off+s.Len] {
+		d, a := it.coinFields(e)
+		dens = append(dens, d)
+		amts = append(amts, a)
+	}
+	return dens, amts, true
+}
+
+func sortedUnique(dens []string) bool {
+	for i := 1; i < len(dens); i++ {
+		if dens[i] <= dens[i-1] {
+			return false
+		}
+	}
+	return true
+}
+
+// rawFind mirrors sdk.Coins.Find (binary search that assumes sorted input) on an arbitrary list; -1 if not found.
+func rawFind(dens []string, d string) int {
+	lo, hi := 0, len(dens)
+	for {
+		n := hi - lo
+		switch n {
+		case 0:
+			return -1
+		case 1:
+			if dens[lo] == d {
+				return lo
+			}
+			return -1
+		}
+		mid := lo + n/2
+		switch {
+		case d < dens[mid]:
+			hi = mid
+		case d == dens[mid]:
+			return mid
+		default:
+			lo = mid + 1
+		}
+	}
+}
+
 var coinType types.Type
 
 func (it *Interp) coinT() types.Type {
@@ -248,7 +302,16 @@ func registerCoins(P *Program) {
 		x, y := it.toCoins(a[0]), it.toCoins(a[1])
 		return allDen(x, y, func(p, q Value) Value { return mkOr(mkCmp("=", p, zero0), mkCmp("!=", q, zero0)) })
 	})
-	P.reg(C+"IsZero", func(it *Interp, a []Value) Value { return coinsEmpty(it.toCoins(a[0])) })
+	P.reg(C+"IsZero", func(it *Interp, a []Value) Value {
+		if _, amts, raw := it.rawCoinList(a[0]); raw {
+			var cs []Value
+			for _, v := range amts {
+				cs = append(cs, mkCmp("=", v, zero0))
+			}
+			return mkAnd(cs...)
+		}
+		return coinsEmpty(it.toCoins(a[0]))
+	})
 	P.reg(C+"Empty", func(it *Interp, a []Value) Value {
 		if s, ok := a[0].(*SliceV); ok {
 			return s.Len == 0
@@ -262,6 +325,13 @@ func registerCoins(P *Program) {
 		d, ok := a[1].(string)
 		if !ok {
 			panic(unsupported("symbolic denom in AmountOf"))
+		}
+		if dens, amts, raw := it.rawCoinList(a[0]); raw && !sortedUnique(dens) {
+			// a malformed literal list: follow the SDK's binary search (Coins.Find) literally
+			if i := rawFind(dens, d); i >= 0 {
+				return nIntV(amts[i])
+			}
+			return nIntV(zero0)
 		}
 		return nIntV(amtOf(it.toCoins(a[0]), d))
 	}
@@ -305,10 +375,30 @@ func registerCoins(P *Program) {
 		return (*ErrV)(nil)
 	})
 	P.reg(C+"IsAllPositive", func(it *Interp, a []Value) Value {
+		if _, amts, raw := it.rawCoinList(a[0]); raw {
+			// literal list: non-empty and every listed amount strictly positive (a listed zero is not dropped)
+			if len(amts) == 0 {
+				return false
+			}
+			var cs []Value
+			for _, v := range amts {
+				cs = append(cs, mkCmp(">", v, zero0))
+			}
+			return mkAnd(cs...)
+		}
 		x := it.toCoins(a[0])
 		return mkAnd(mkNot(coinsEmpty(x)), mkNot(coinsAnyNeg(x)))
 	})
-	P.reg(C+"IsAnyNegative", func(it *Interp, a []Value) Value { return coinsAnyNeg(it.toCoins(a[0])) })
+	P.reg(C+"IsAnyNegative", func(it *Interp, a []Value) Value {
+		if _, amts, raw := it.rawCoinList(a[0]); raw {
+			var cs []Value
+			for _, v := range amts {
+				cs = append(cs, mkCmp("<", v, zero0))
+			}
+			return mkOr(cs...)
+		}
+		return coinsAnyNeg(it.toCoins(a[0]))
+	})
 	P.reg(C+"IsAnyNil", func(it *Interp, a []Value) Value { return false })
 	P.reg(C+"Sort", func(it *Interp, a []Value) Value { return a[0] })
 	P.reg(C+"String", func(it *Interp, a []Value) Value { return symStrMark + "coins" })
